@@ -1,6 +1,7 @@
 """C14 — bounds and default limits written by the writer are exact (DESIGN §4 C14)."""
 from mirlib import *
 import bounds_rules
+import xml_rules
 
 TECHNIQUE = "decision table record name -> (bounds struct, min field, max field, conversion) extracted from the edge-dominating name tests of the 18 update sites; orientation of update_min/update_max by edge reachability; presence sets; dataflow of the default limits; validate-before-update reachability rule"
 EXPLANATION = (
@@ -18,6 +19,7 @@ def run(ctx):
     ctx.rule("R2", "update_min replaces when current > value, update_max when current < value, both store on None")
     ctx.rule("R3", "bounds structs are created exactly for the record names whose bounds are updated")
     ctx.rule("R4", "default limits: from_record_types(red, green, blue) / from_record_type(intensity) of the right records; limits() same-typed; setters overwrite; emitted only when complete")
+    ctx.rule("R7", "the bounds and limits that were computed are the ones written: writer/reader inverse field maps of the bounds, limits and point cloud structures (shared with C04-R1/R2)")
     ctx.rule("R6", "every rejection of a point precedes all bound updates and the store (a rejected point leaves the bounds untouched)")
     for cfg in (["lib"] if ctx.tier == "quick" else ["lib", "lib_crc32c"]):
         prog, info = load_program(cfg, "e57")
@@ -28,4 +30,5 @@ def run(ctx):
         bounds_rules.presence_sets(ctx, prog, "R3")
         bounds_rules.default_limits(ctx, prog, "R4")
         bounds_rules.validation_before_update(ctx, prog, "R6")
+        xml_rules.inverse_maps(ctx, prog, "R7", "R7", "R7", only=("CartesianBounds", "SphericalBounds", "IndexBounds", "ColorLimits", "IntensityLimits", "PointCloud"))
     ctx.cfg = None
